@@ -78,6 +78,13 @@ class Sched:
     def step(self):
         """One scheduling decision.  Returns False when nothing can happen any more."""
         boot.drain()
+        if boot.held_threads:
+            # work given to the CPU thread pool whose result has not been handed back yet (boot.hold_threads): when it comes back, relative to
+            # the messages in flight, is one more thing the schedule decides
+            if not self.pending or self.next_choice() % 3 == 0:
+                boot.release_thread()
+                boot.drain()
+                return True
         if self.pending:
             cand = [j for j, m in enumerate(self.pending) if m.server.idx not in self.late] if self.late else None
             if cand is not None and not cand:
@@ -161,7 +168,7 @@ class Sched:
         """Deliver everything that is pending (e.g. abort messages sent by a failed upload)."""
         for _ in range(maxsteps):
             boot.drain()
-            if self.pending:
+            if self.pending or boot.held_threads:
                 self.step()
             elif timers and self.timers():
                 self.fire_next_timer()
